@@ -171,7 +171,13 @@ def _case(draw):
     # on a parallel_handlers bus async handlers finish in an order unrelated to registration order (each waits `delay` ticks)
     par = draw(st.integers(0, 3)) == 0
     delays = [draw(st.integers(0, 4)) for _ in rets] if par else []
-    return {'type': tname, 'via_class': via_class, 'rets': rets, 'wild': draw(st.integers(0, len(rets))), 'par': par, 'delays': delays}
+    out = {'type': tname, 'via_class': via_class, 'rets': rets, 'wild': draw(st.integers(0, len(rets))), 'par': par, 'delays': delays}
+    if not via_class and T is not None and draw(st.integers(0, 3)) == 0:
+        # the type is declared by a subclass that overrides, through an explicit event_result_type field default, the type its parent
+        # class took from its generic parameter; optionally an instance of the parent class has been created (and used) before
+        out['subclass_of'] = draw(st.sampled_from(['TInt', 'TStr', 'TListInt', 'TM']))
+        out['parent_first'] = draw(st.booleans())
+    return out
 
 
 def strategy(tier):
@@ -315,7 +321,7 @@ def run_case(c):
     tname = c['type']
     T, cls, *_ = TYPES[tname]
     viol: list = []
-    classes = [f'type:{tname}', 'declared:' + ('class' if c['via_class'] else 'field')]
+    classes = [f'type:{tname}', 'declared:' + ('class' if c['via_class'] else ('subclass-override' + ('+parent-used-first' if c.get('parent_first') else '') if c.get('subclass_of') else 'field'))]
     info: dict = {}
     with fresh_loop() as loop:
 
@@ -327,6 +333,17 @@ def run_case(c):
             if c['via_class']:
                 ev = cls()
                 key = cls.__name__
+            elif c.get('subclass_of'):
+                # a fresh parent class per case, so that whatever the library caches per class cannot leak between cases
+                import types as _types
+
+                PT = {'TInt': int, 'TStr': str, 'TListInt': list[int], 'TM': M}[c['subclass_of']]
+                parent = _types.new_class('ParEv', (BaseEvent[PT],), {}, lambda ns: ns.update({'__module__': __name__}))
+                if c.get('parent_first'):
+                    await bus.dispatch(parent())  # nobody handles it; the parent class has been instantiated and used
+                sub = type('SubEv', (parent,), {'__annotations__': {'event_result_type': Any}, 'event_result_type': T, '__module__': __name__})
+                ev = sub()
+                key = 'SubEv'
             else:
                 ev = BaseEvent(event_type='Ev', event_result_type=T)
                 key = 'Ev'
